@@ -127,6 +127,65 @@ type c11Pod struct {
 	qerr   bool        // the querier fails
 	series []c11Sample // points in storage order; hasMetric / milli above are the EFFECTIVE values
 	mstate string
+	// containers (Model/C11Containers.lean); reqMid / reqBatch above are the sums by the property's reading:
+	// regular containers + sidecar init containers, absent or non-positive requests counting 0
+	ctrs []c11Ctr
+}
+
+type c11Ctr struct {
+	kind       int   // 0 regular container, 1 init container (runs to completion), 2 init container with restartPolicy Always
+	mid, batch int64 // request of the class's mid / batch resource; -1 = the resource name is absent
+}
+
+// c11GenCtrs spreads the pod's mid / batch requests over containers: half of the pods keep ONE container (the former
+// shape), the others get 1-3 regular and 0-2 init containers (plain or sidecar) with absent / zero / positive requests.
+func c11GenCtrs(r *vRand, p *c11Pod) {
+	abs := func(v int64) int64 {
+		if v == 0 {
+			return -1
+		}
+		return v
+	}
+	if r.Chance(1, 2) {
+		p.ctrs = []c11Ctr{{0, abs(p.reqMid), abs(p.reqBatch)}}
+		return
+	}
+	one := func() int64 {
+		switch r.Intn(5) {
+		case 0:
+			return -1
+		case 1:
+			return 0
+		}
+		return int64(r.Range(1, 4)) * 100
+	}
+	for i, n := 0, r.Range(1, 3); i < n; i++ {
+		p.ctrs = append(p.ctrs, c11Ctr{0, one(), one()})
+	}
+	for i, n := 0, r.Intn(3); i < n; i++ {
+		p.ctrs = append(p.ctrs, c11Ctr{1 + r.Intn(2), one(), one()})
+	}
+	p.reqMid, p.reqBatch = 0, 0
+	for _, c := range p.ctrs {
+		if c.kind == 1 {
+			continue
+		}
+		if c.mid > 0 {
+			p.reqMid += c.mid
+		}
+		if c.batch > 0 {
+			p.reqBatch += c.batch
+		}
+	}
+}
+
+func c11CtrsOp(p *c11Pod) string {
+	var sb strings.Builder
+	fmt.Fprintf(&sb, "ctrs %d %d %d", p.id, vB(c11IsCPU), len(p.ctrs))
+	for _, c := range p.ctrs {
+		fmt.Fprintf(&sb, " %d %d %d", c.kind, c.mid, c.batch)
+	}
+	return sb.String()
 }
 
 var c11ClsNames = []string{"", "koord-prod", "koord-mid", "koord-batch", "koord-free", "koord-bogus"}
@@ -355,6 +414,7 @@ func c11GenPod(r *vRand, id, name int) *c11Pod {
 	}
 	p.reqNative = int64(r.Range(1, 8)) * 100 // always positive: the pod is never kube-BestEffort
 	p.reqMid, p.reqBatch, p.batchCPU = pick(), pick(), pick()
+	c11GenCtrs(r, p)
 	return p
 }
 
@@ -387,13 +447,29 @@ func (p *c11Pod) build() *corev1.Pod {
 	if len(labels) == 0 && p.id%2 == 0 {
 		labels = nil
 	}
-	req := corev1.ResourceList{c11ResNative: c11ReqQty(c11ResNative, p.reqNative)}
-	if p.reqMid > 0 {
-		req[c11ResMid] = c11ReqQty(c11ResMid, p.reqMid)
+	var containers, inits []corev1.Container
+	for i, c := range p.ctrs {
+		req := corev1.ResourceList{}
+		if c.mid >= 0 {
+			req[c11ResMid] = c11ReqQty(c11ResMid, c.mid)
+		}
+		if c.batch >= 0 {
+			req[c11ResBatch] = c11ReqQty(c11ResBatch, c.batch)
+		}
+		ctr := corev1.Container{Name: fmt.Sprintf("c%d", i), Resources: corev1.ResourceRequirements{Requests: req}}
+		switch c.kind {
+		case 0:
+			containers = append(containers, ctr)
+		case 2:
+			ctr.RestartPolicy = ptr.To(corev1.ContainerRestartPolicyAlways)
+			inits = append(inits, ctr)
+		default:
+			inits = append(inits, ctr)
+		}
 	}
-	if p.reqBatch > 0 {
-		req[c11ResBatch] = c11ReqQty(c11ResBatch, p.reqBatch)
-	}
+	// the native request (k8s resourcehelper.PodRequests: trusted) stays on the first regular container
+	req := containers[0].Resources.Requests
+	req[c11ResNative] = c11ReqQty(c11ResNative, p.reqNative)
 	if c11IsCPU {
 		// c11ResBatch is batch-cpu there; batchCPU == reqBatch
 	} else if p.batchCPU > 0 {
@@ -402,7 +478,7 @@ func (p *c11Pod) build() *corev1.Pod {
 	pod := &corev1.Pod{
 		ObjectMeta: metav1.ObjectMeta{Namespace: "ns", Name: fmt.Sprintf("p%02d", p.name), UID: types.UID(fmt.Sprintf("u%d", p.id)),
 			Labels: labels, Annotations: annotations},
-		Spec:   corev1.PodSpec{Containers: []corev1.Container{{Name: "c", Resources: corev1.ResourceRequirements{Requests: req}}}},
+		Spec:   corev1.PodSpec{Containers: containers, InitContainers: inits},
 		Status: corev1.PodStatus{Phase: c11Phases[p.phase]},
 	}
 	if p.kube >= 0 {
@@ -534,6 +610,8 @@ func TestVerifC11Select(t *testing.T) {
 			h.Op("rawpod %d %d %d %d %d %d %d %d %d %s %s %d %d %d %d %d %d %d %d %s", p.id, p.name, p.qos, kube, p.phase,
 				vB(p.hasSpec), p.spec, p.clsLabel, el, numTok(p.epKind, p.epNum), numTok(p.lpKind, p.lpNum), p.polTop,
 				vB(p.hasMetric), p.milli, p.reqNative, p.reqMid, p.reqBatch, p.batchCPU, len(p.polElems), vIntsI(p.polElems))
+			h.Op("%s", c11CtrsOp(p))
+			h.Tag(fmt.Sprintf("containers:%d", len(p.ctrs)))
 			h.Tag(fmt.Sprintf("policy-shape:%d/%d", p.polTop, p.policyCode()))
 			h.Tag(fmt.Sprintf("evict-prio:%d/inrange=%v", p.epKind, p.epKind == 1 && c11InBits(p.epNum, 32)))
 			h.Tag(fmt.Sprintf("spec-prio:%v/zero=%v/clsLabel=%d", p.hasSpec, p.hasSpec && p.spec == 0, p.clsLabel))
@@ -582,6 +660,13 @@ func TestVerifC11Select(t *testing.T) {
 			sel := emit(out, func(a, b *qosmanagerUtil.PodEvictInfo) bool {
 				return a.EvictionPriority == b.EvictionPriority && a.Priority == b.Priority && a.LabelPriority == b.LabelPriority && sub(a) == sub(b)
 			})
+			// oracle: what a victim is credited with when the target is in requests (and what the allocatable features sort
+			// by) is the request of the pod's class resource summed over the containers that run side by side
+			for _, x := range out {
+				if p := byID[string(x.Pod.UID)]; p != nil && !p.clsAmbiguous() && c11InfoReq(x) != p.request() {
+					h.Fail("C11:request-miscounted", "priority path: pod %d (class %d, containers (kind, mid, batch) %v) carries request %d, its concurrent containers request %d", p.id, p.cls(), p.ctrs, c11InfoReq(x), p.request())
+				}
+			}
 			// oracle: eligibility and published order, from the generated attributes only
 			key := func(p *c11Pod) []int64 {
 				s := p.milli
